@@ -115,6 +115,7 @@ type runSummary struct {
 	Tier         string                   `json:"tier"`
 	Seed         int64                    `json:"seed"`
 	Evaluations  int                      `json:"evaluations"`
+	Cases        int                      `json:"cases"`
 	Distinct     int                      `json:"distinct_nontrivial"`
 	Kinds        map[string]int           `json:"kinds"`
 	ModelCases   int                      `json:"model_cases"`
@@ -167,7 +168,12 @@ func runProp(p *Prop, tier string, seed int64, outDir string, corpusDir string) 
 		ok, msg := c.Oracle()
 		js, _ := json.Marshal(c)
 		fmt.Fprintf(jl, "%s\n", js)
-		sum.Evaluations++
+		if ev, ok := c.(interface{ Evals() int }); ok {
+			sum.Evaluations += ev.Evals()
+		} else {
+			sum.Evaluations++
+		}
+		sum.Cases++
 		sum.Kinds[c.Kind()]++
 		if c.Nontrivial() {
 			h := sha256.Sum256(js)
